@@ -174,6 +174,114 @@ Definition QB (n : nat) : Prop := forall T fn F G r s b b' v s', sinside P T fn 
   trs_body T (sf_name fn) G b = Some b' -> sgo_body n P r s b = Some (v, s') ->
   evals (close (csf r (sf_name fn) F) b') s v s' /\ cells_kept s s'.
 
+Definition QL (n : nat) : Prop := forall T fn F G r s l l' s', sinside P T fn F -> agree G r s ->
+  trs_loc T (sf_name fn) G l = Some l' -> sgo_loc n P r s l = Some s' ->
+  (exists w, evals (close (csf r (sf_name fn) F) l') s w s') /\ cells_kept s s'.
+
+(* one statement without control effects *)
+Lemma ssimple_correct n T fn F G r s st x e1 G' r1 s1 : QE n -> sinside P T fn F -> agree G r s ->
+  trs_simple T (sf_name fn) G st = Some (x, e1, G') -> sgo_simple (sgo_expr n P) r s st = Some (r1, s1) ->
+  exists v1, evals (close (csf r (sf_name fn) F) e1) s v1 s1 /\ agree G' r1 s1 /\
+             csf r1 (sf_name fn) F = bind x v1 (csf r (sf_name fn) F) /\ cells_kept s s1.
+Proof.
+  intros IHE Hin Hag Htr Hgo. set (cs := csf r (sf_name fn) F).
+  destruct st as [y e|y t [e|]|y e|op y e|inc y]; cbn [trs_simple sgo_simple] in Htr, Hgo.
+  - (* y := e *)
+    destruct (trs_expr T (sf_name fn) G e) as [e'|] eqn:Ee; [|discriminate]. injection Htr as <- <- <-.
+    destruct (sgo_expr n P r s e) as [[v s0]|] eqn:Ge; [|discriminate]. injection Hgo as <- <-.
+    destruct (IHE _ _ _ _ _ _ _ _ _ _ Hin Hag Ee Ge) as [He K1].
+    exists v. repeat split; [exact He|constructor; eapply agree_kept; eassumption|exact K1].
+  - (* var y t = e *)
+    destruct (trs_expr T (sf_name fn) G e) as [e'|] eqn:Ee; [|discriminate]. injection Htr as <- <- <-.
+    destruct (sgo_expr n P r s e) as [[v s0]|] eqn:Ge; [|discriminate].
+    destruct (alloc_cell v s0) as [b s2] eqn:Ea. injection Hgo as <- <-.
+    destruct (IHE _ _ _ _ _ _ _ _ _ _ Hin Hag Ee Ge) as [He K1].
+    assert (K12 : cells_kept s0 s2) by (replace s2 with (snd (alloc_cell v s0)) by (rewrite Ea; reflexivity); apply alloc_kept).
+    exists (LitV (LitLoc b 0)). repeat split.
+    + unfold RefTo. rewrite close_app, close_val.
+      eapply evals_prim1; [reflexivity|reflexivity|exact He|].
+      unfold alloc_cell in Ea. injection Ea as <- <-. destruct t; reflexivity.
+    + econstructor; [eapply agree_kept; [exact Hag|eapply cells_kept_trans; eassumption]|].
+      replace b with (fst (alloc_cell v s0)) by (rewrite Ea; reflexivity).
+      replace s2 with (snd (alloc_cell v s0)) by (rewrite Ea; reflexivity). apply read_alloc_new.
+    + eapply cells_kept_trans; eassumption.
+  - (* var y t *)
+    injection Htr as <- <- <-.
+    destruct (alloc_cell (zero_of t) s) as [b s2] eqn:Ea. injection Hgo as <- <-.
+    assert (K12 : cells_kept s s2) by (replace s2 with (snd (alloc_cell (zero_of t) s)) by (rewrite Ea; reflexivity); apply alloc_kept).
+    exists (LitV (LitLoc b 0)). repeat split.
+    + unfold RefZero. rewrite close_app, !close_val.
+      eapply evals_prim1; [reflexivity|reflexivity|apply evals_val|].
+      unfold alloc_cell in Ea. injection Ea as <- <-. destruct t; reflexivity.
+    + econstructor; [eapply agree_kept; [exact Hag|exact K12]|].
+      replace b with (fst (alloc_cell (zero_of t) s)) by (rewrite Ea; reflexivity).
+      replace s2 with (snd (alloc_cell (zero_of t) s)) by (rewrite Ea; reflexivity). apply read_alloc_new.
+    + exact K12.
+  - (* y = e *)
+    destruct (tlookup y G) as [[[] t]|] eqn:Hl; try discriminate.
+    destruct (trs_expr T (sf_name fn) G e) as [e'|] eqn:Ee; [|discriminate]. injection Htr as <- <- <-.
+    destruct (agree_lookup _ _ _ _ _ _ Hag Hl) as [_ H]. destruct (H eq_refl) as (b & old & Hg & Hr).
+    rewrite Hg in Hgo.
+    destruct (sgo_expr n P r s e) as [[v s0]|] eqn:Ge; [|discriminate].
+    destruct (write_cell b v s0) as [s2|] eqn:Hw; [|discriminate]. injection Hgo as <- <-.
+    destruct (IHE _ _ _ _ _ _ _ _ _ _ Hin Hag Ee Ge) as [He K1].
+    destruct (K1 _ _ Hr) as [old1 Hr1].
+    pose proof (write_kept _ _ _ _ Hw) as K12.
+    exists (LitV LitUnit). repeat split.
+    + eapply evals_store_cs; [|exact He|exact Hr1|exact Hw].
+      unfold cs, csf. rewrite (clookup_csf_l _ _ _ _ Hg). reflexivity.
+    + eapply agree_kept; [exact Hag|eapply cells_kept_trans; eassumption].
+    + eapply cells_kept_trans; eassumption.
+  - (* y op= e *)
+    destruct (tlookup y G) as [[[] t]|] eqn:Hl; try discriminate.
+    destruct (trs_expr T (sf_name fn) G e) as [e'|] eqn:Ee; [|discriminate].
+    destruct (assign_op op) eqn:Eop; [|discriminate].
+    destruct (tr_binop op (Load (ty_of t) (Var y)) e') as [rhs|] eqn:Eb; [|discriminate]. injection Htr as <- <- <-.
+    destruct (agree_lookup _ _ _ _ _ _ Hag Hl) as [_ H]. destruct (H eq_refl) as (b & old0 & Hg & Hr).
+    rewrite Hg in Hgo.
+    destruct (sgo_expr n P r s e) as [[v s0]|] eqn:Ge; [|discriminate].
+    destruct (read_cell b s0) as [old|] eqn:Hr1; [|discriminate].
+    destruct (go_binop op old v) as [nv|] eqn:Ebin; [|discriminate].
+    destruct (write_cell b nv s0) as [s2|] eqn:Hw; [|discriminate]. injection Hgo as <- <-.
+    destruct (IHE _ _ _ _ _ _ _ _ _ _ Hin Hag Ee Ge) as [He K1].
+    pose proof (write_kept _ _ _ _ Hw) as K12.
+    assert (Hloc : clookup y cs = Some (LitV (LitLoc b 0))) by (unfold cs, csf; rewrite (clookup_csf_l _ _ _ _ Hg); reflexivity).
+    exists (LitV LitUnit). repeat split.
+    + eapply evals_store_cs; [exact Hloc| |exact Hr1|exact Hw].
+      eapply binop_st; [exact Ebin|apply close_tr_binop, Eb| | | |].
+      * intros ->; discriminate.
+      * intros ->; discriminate.
+      * intros Hs. destruct op; discriminate.
+      * intros _. split; [exact He|]. eapply evals_load_cs; [exact Hloc|exact Hr1].
+    + eapply agree_kept; [exact Hag|eapply cells_kept_trans; eassumption].
+    + eapply cells_kept_trans; eassumption.
+  - (* y++ / y-- *)
+    destruct (tlookup y G) as [[[] t]|] eqn:Hl; try discriminate. injection Htr as <- <- <-.
+    destruct (agree_lookup _ _ _ _ _ _ Hag Hl) as [_ H]. destruct (H eq_refl) as (b & old0 & Hg & Hr0).
+    rewrite Hg in Hgo.
+    destruct (read_cell b s) as [old|] eqn:Hr; [|discriminate].
+    destruct (go_binop (if inc then OAdd else OSub) old (LitV (LitInt 1))) as [nv|] eqn:Ebin; [|discriminate].
+    destruct (write_cell b nv s) as [s2|] eqn:Hw; [|discriminate]. injection Hgo as <- <-.
+    pose proof (write_kept _ _ _ _ Hw) as K12.
+    assert (Hloc : clookup y cs = Some (LitV (LitLoc b 0))) by (unfold cs, csf; rewrite (clookup_csf_l _ _ _ _ Hg); reflexivity).
+    exists (LitV LitUnit). repeat split.
+    + eapply evals_store_cs; [exact Hloc| |exact Hr|exact Hw].
+      eapply (binop_st (if inc then OAdd else OSub) _ _ _ old (LitV (LitInt 1)) nv s s s); [exact Ebin| | | | |].
+      * rewrite close_binop. destruct inc; reflexivity.
+      * destruct inc; discriminate.
+      * destruct inc; discriminate.
+      * intros Hs. destruct inc; discriminate.
+      * intros _. split; [unfold Lit; rewrite close_val; apply evals_val|eapply evals_load_cs; [exact Hloc|exact Hr]].
+    + eapply agree_kept; [exact Hag|exact K12].
+    + exact K12.
+Qed.
+
+Lemma sgo_loc_end n r s s' : sgo_loc n P r s LEnd = Some s' -> s' = s.
+Proof. destruct n; cbn [sgo_loc]; [discriminate|]. intros [= <-]. reflexivity. Qed.
+
+Lemma lend_true k : lend k = true -> k = LEnd.
+Proof. destruct k; cbn [lend]; try discriminate. reflexivity. Qed.
+
 Lemma senter_correct n T fn F args v s s' : QB n -> sinside P T fn F ->
   length args = length (sf_params fn) ->
   sgo_body n P (rev (combine (map fst (sf_params fn)) (map Imm args))) s (sf_body fn) = Some (v, s') ->
@@ -194,12 +302,12 @@ Proof.
     intros Hin'. apply smem_In in Hin'. rewrite Hin' in Hnm. discriminate.
 Qed.
 
-Theorem sall_correct : forall n, QE n /\ QA n /\ QB n.
+Theorem sall_correct : forall n, QE n /\ QA n /\ QL n /\ QB n.
 Proof.
-  induction n as [|n (IHE & IHA & IHB)].
-  { unfold QE, QA, QB. split; [|split]; intros;
+  induction n as [|n (IHE & IHA & IHL & IHB)].
+  { unfold QE, QA, QL, QB. split; [|split; [|split]]; intros;
       match goal with H0 : _ O _ _ _ _ = Some _ |- _ => cbn in H0; discriminate H0 end. }
-  split; [|split].
+  split; [|split; [|split]].
   - (* expressions *)
     intros T fn F G r s e e' v s' Hin Hag Htr Hgo. set (cs := csf r (sf_name fn) F).
     destruct e as [k|b|x|op a b|a|f args].
@@ -304,9 +412,62 @@ Proof.
       destruct (IHE _ _ _ _ _ _ _ _ _ _ Hin (agree_kept _ _ _ _ Hag K1) Ea Ga) as [Ha K2].
       exists (a' :: es). split; [reflexivity|]. split; [|eapply cells_kept_trans; eassumption].
       cbn [map]. econstructor; [exact Hrl|exact Ha].
+  - (* lists of statements without control effects *)
+    intros T fn F G r s l l' s' Hin Hag Htr Hgo. set (cs := csf r (sf_name fn) F).
+    destruct l as [|st k|c th el k]; cbn [trs_loc sgo_loc] in Htr, Hgo.
+    + injection Htr as <-. injection Hgo as <-. split; [|apply cells_kept_refl].
+      exists (LitV LitUnit). unfold UnitE. rewrite close_val. apply evals_val.
+    + destruct (trs_simple T (sf_name fn) G st) as [[[x e1] G']|] eqn:Es; [|discriminate].
+      destruct (sgo_simple (sgo_expr n P) r s st) as [[r1 s1]|] eqn:Gs; [|discriminate].
+      destruct (ssimple_correct n T fn F G r s st x e1 G' r1 s1 IHE Hin Hag Es Gs) as (v1 & He & Hag1 & Hcs & K1).
+      destruct (lend k) eqn:Ek.
+      * apply lend_true in Ek. subst k. injection Htr as <-. apply sgo_loc_end in Hgo. subst s'.
+        split; [exists v1; exact He|exact K1].
+      * destruct (trs_loc T (sf_name fn) G' k) as [k'|] eqn:Etk; [|discriminate]. injection Htr as <-.
+        destruct (IHL _ _ _ _ _ _ _ _ _ Hin Hag1 Etk Hgo) as [[w Hk] K2].
+        split; [|eapply cells_kept_trans; eassumption].
+        exists w. eapply evals_close_letin; [exact He|]. unfold cs. rewrite <- Hcs. exact Hk.
+    + destruct (trs_expr T (sf_name fn) G c) as [c'|] eqn:Ec; [|discriminate].
+      destruct (trs_loc T (sf_name fn) G th) as [t'|] eqn:Et; [|discriminate].
+      destruct (trs_loc T (sf_name fn) G el) as [e'|] eqn:Ee; [|discriminate].
+      destruct (sgo_expr n P r s c) as [[[[| | |cb| | | |]| | |] s1]|] eqn:Gc; try discriminate.
+      destruct (sgo_loc n P r s1 (if cb then th else el)) as [s2|] eqn:Gb; [|discriminate].
+      destruct (IHE _ _ _ _ _ _ _ _ _ _ Hin Hag Ec Gc) as [Hc K1].
+      pose proof (agree_kept _ _ _ _ Hag K1) as Hag1.
+      assert (Hif : (exists w, evals (close cs (If c' t' e')) s w s2) /\ cells_kept s1 s2).
+      { rewrite close_if. destruct cb.
+        - destruct (IHL _ _ _ _ _ _ _ _ _ Hin Hag1 Et Gb) as [[w Hw] K2]. split; [|exact K2]. exists w. eapply evals_if; [exact Hc|exact Hw].
+        - destruct (IHL _ _ _ _ _ _ _ _ _ Hin Hag1 Ee Gb) as [[w Hw] K2]. split; [|exact K2]. exists w. eapply evals_if; [exact Hc|exact Hw]. }
+      destruct Hif as [[w Hw] K2].
+      destruct (lend k) eqn:Ek.
+      * apply lend_true in Ek. subst k. injection Htr as <-. apply sgo_loc_end in Hgo. subst s'.
+        split; [exists w; exact Hw|eapply cells_kept_trans; eassumption].
+      * destruct (trs_loc T (sf_name fn) G k) as [k'|] eqn:Etk; [|discriminate]. injection Htr as <-.
+        pose proof (agree_kept _ _ _ _ Hag1 K2) as Hag2.
+        destruct (IHL _ _ _ _ _ _ _ _ _ Hin Hag2 Etk Hgo) as [[w2 Hk] K3].
+        split; [|eapply cells_kept_trans; [eapply cells_kept_trans; eassumption|exact K3]].
+        exists w2. unfold Seq. eapply (evals_close_letin _ BAnon _ _ s w s2); [exact Hw|exact Hk].
   - (* bodies *)
     intros T fn F G r s b b' v s' Hin Hag Htr Hgo. set (cs := csf r (sf_name fn) F).
-    destruct b as [e|x e k|x t eo k|x e k|op x e k|inc x k|c th el]; cbn [trs_body sgo_body] in Htr, Hgo.
+    destruct b as [c th el k|e|x e k|x t eo k|x e k|op x e k|inc x k|c th el]; cbn [trs_body sgo_body] in Htr, Hgo.
+    + (* if without control effects, more statements follow *)
+      destruct (trs_expr T (sf_name fn) G c) as [c'|] eqn:Ec; [|discriminate].
+      destruct (trs_loc T (sf_name fn) G th) as [t'|] eqn:Et; [|discriminate].
+      destruct (trs_loc T (sf_name fn) G el) as [e'|] eqn:Ee; [|discriminate].
+      destruct (trs_body T (sf_name fn) G k) as [k'|] eqn:Ek; [|discriminate]. injection Htr as <-.
+      destruct (sgo_expr n P r s c) as [[[[| | |cb| | | |]| | |] s1]|] eqn:Gc; try discriminate.
+      destruct (sgo_loc n P r s1 (if cb then th else el)) as [s2|] eqn:Gb; [|discriminate].
+      destruct (IHE _ _ _ _ _ _ _ _ _ _ Hin Hag Ec Gc) as [Hc K1].
+      pose proof (agree_kept _ _ _ _ Hag K1) as Hag1.
+      assert (Hif : (exists w, evals (close cs (If c' t' e')) s w s2) /\ cells_kept s1 s2).
+      { rewrite close_if. destruct cb.
+        - destruct (IHL _ _ _ _ _ _ _ _ _ Hin Hag1 Et Gb) as [[w Hw] K2]. split; [|exact K2]. exists w. eapply evals_if; [exact Hc|exact Hw].
+        - destruct (IHL _ _ _ _ _ _ _ _ _ Hin Hag1 Ee Gb) as [[w Hw] K2]. split; [|exact K2]. exists w. eapply evals_if; [exact Hc|exact Hw]. }
+      destruct Hif as [[w Hw] K2].
+      pose proof (agree_kept _ _ _ _ Hag1 K2) as Hag2.
+      destruct (IHB _ _ _ _ _ _ _ _ _ _ Hin Hag2 Ek Hgo) as [Hk K3].
+      split; [|eapply cells_kept_trans; [eapply cells_kept_trans; eassumption|exact K3]].
+      unfold Seq. eapply (evals_close_letin _ BAnon _ _ s w s2); [exact Hw|exact Hk].
     + apply (IHE _ _ _ _ _ _ _ _ _ _ Hin Hag Htr Hgo).
     + (* x := e *)
       destruct (trs_expr T (sf_name fn) G e) as [e1|] eqn:Ee; [|discriminate].
@@ -461,7 +622,7 @@ Proof.
                        evals (call_expr F args) s v s') Q (map snd R1)).
   { intros Q R1 H1. induction H1 as [|fn nv Q1 R2 [_ [Tg Hin]] _ IH]; cbn [map]; constructor; [|exact IH].
     intros n args v s s' Hlen Hgo.
-    destruct (sall_correct P n) as (_ & _ & HB). eapply (proj1 (senter_correct P n Tg fn (snd nv) args v s s' HB Hin Hlen Hgo)). }
+    destruct (sall_correct P n) as (_ & _ & _ & HB). eapply (proj1 (senter_correct P n Tg fn (snd nv) args v s s' HB Hin Hlen Hgo)). }
   apply Hgen, HF.
 Qed.
 
